@@ -22,6 +22,10 @@ def monitor(run):
     cfg = run.cfg
     bad = []
     stopped = False
+    # runs in which every partition lookup completes at once: a dispatch shows on the wire in the same step
+    immediate = (cfg["api"] in (1, 2) and all(e == 0 and hp for (_t, e, hp) in cfg.get("cache", []))
+                 and len(cfg.get("cache", [])) == cfg["ntop"] and not any(ev[0] in (5, 6) for ev in run.events)
+                 and not any(o[0] in (5, 6) for st in run.raw for o in st))
     never = {}          # sid -> step at which the caller was told request_sent=False
     on_wire = {}        # sid -> first step its messages were in a produce request
     outcomes = {}
@@ -31,6 +35,21 @@ def monitor(run):
         cnt_b = sum(PC.size_of(run, s)[0] for s in ub)
         byt_b = sum(PC.size_of(run, s)[1] for s in ub)
         idle_b = not before["busy"]
+        if immediate and not stopped and op not in (1, 4, 11) and not idle_b:
+            # C19_dispatch_iff, third case: a batch dispatched by an event that completes the batch in flight
+            queued = [s for s in ub if s not in on_wire]
+            first = [o for o in outs if o[0] == 1 and o[1] == 1]
+            if first:
+                cq = sum(PC.size_of(run, s)[0] for s in queued)
+                bq = sum(PC.size_of(run, s)[1] for s in queued)
+                if not PC.thr(cfg, cq, bq):
+                    bad.append((i, "dispatch-iff: the event completing the batch in flight dispatched sends %r (%d msgs/%d bytes) below the thresholds n=%r b=%r"
+                                % (queued, cq, bq, PC.thresholds(cfg)[0], PC.thresholds(cfg)[1])))
+                ps = set(PC.produce_sids(first[0]))
+                now = {o[1] for o in outs if o[0] == 7}
+                if not ps <= set(queued) or any(s not in ps and s not in now for s in queued):
+                    bad.append((i, "dispatch-iff: the batch dispatched at completion carries sends %r, the queue was %r"
+                                % (sorted(ps), sorted(queued))))
         for o in outs:
             if o[0] == 1:
                 for sid in PC.produce_sids(o):
@@ -206,10 +225,19 @@ def run(ck):
     runs = PC.gen_runs(rnd, 900 * scale, hist=ck.hist, cfg_fn=cfg_c19)
     check_runs(ck, runs, "Producer vs Model.Producer.run_case (batching generator)")
     # 3. exhaustive small scope
-    depth = 4 if ck.tier == "quick" else 6
-    runs = [run_word(cfg, word) for cfg, word in small_scope(depth)]
-    ck.hist("small_scope_sequences", len(runs))
-    check_runs(ck, runs, "Producer vs Model.Producer.run_case (all sequences up to depth %d over a 9-letter alphabet)" % depth)
+    depth = 4 if ck.tier == "quick" else 5
+    chunk, total = [], 0
+    label = "Producer vs Model.Producer.run_case (all sequences up to depth %d over a 9-letter alphabet)" % depth
+    for cfg, word in small_scope(depth):
+        chunk.append(run_word(cfg, word))
+        if len(chunk) >= 20000:
+            total += len(chunk)
+            check_runs(ck, chunk, label)
+            chunk = []
+    total += len(chunk)
+    if chunk:
+        check_runs(ck, chunk, label)
+    ck.hist("small_scope_sequences", total)
     if ck.tier == "thorough":
         ck.coqchk(["AV.Props.C19"])
     ck.cov["rule"] = ("seeded state-aware generator (random.Random(VERIF_SEED)) of event sequences over the real Producer: sends (1-4 messages, "
